@@ -156,9 +156,7 @@ def main(chk):
     core.setup_repo_path()
     from d42.migration.migrate_v1_to_v2 import mapping, rewrite_imports
     quick = chk.tier == "quick"
-    runs = [("single", "3", 1.0), ("all", "2", 0.25 if quick else 1.0)]
-    if not quick:
-        runs.append(("all", "3", 0.02))
+    runs = [("single", "3", 1.0), ("all", "2", 0.25)] if quick else [("single", "4", 0.5), ("all", "2", 1.0)]
     states = []
     for menu, maxrows, keep in runs:
         cfg = {"constants": {"MaxRows": maxrows, "Rich": "FALSE", "Menu": '"%s"' % menu},
